@@ -595,6 +595,9 @@ func (f *Frame) callMods(c *ssa.CallCommon, mod map[string]bool) bool {
 	if kind == "model" && strings.HasPrefix(key, "iface:context.Context.Err") {
 		mod["ghost:lastCtxErrNil"] = true
 	}
+	if kind == "unknown" && c.IsInvoke() && strings.HasPrefix(key, "iface:interfaces.") {
+		return true // A-SPI: consumer SPI methods do not touch library state
+	}
 	switch kind {
 	case "contract":
 		if con.ModAll {
@@ -860,6 +863,8 @@ func (f *Frame) exec(ins ssa.Instruction) {
 		f.vals[x] = r
 	case *ssa.MakeChan:
 		ch := f.newRef("chan", x.Type())
+		vc.declareFun("chan_cap", []Sort{SInt}, SInt)
+		vc.assume(eq(sx("chan_cap", ch.t), f.sval(x.Size).t))
 		cl := f.getCell(f.cur, "ghost:closed", "(Array Int Bool)")
 		vc.assume(not(sx("select", cl, ch.t))) // a new channel is open
 		f.vals[x] = ch
@@ -1113,6 +1118,10 @@ func (f *Frame) execUnOp(x *ssa.UnOp) {
 		f.vals[x] = Val{wrapTo(sx("-", v.t), x.Type()), SInt, x.Type()}
 	case token.ARROW: // channel receive
 		vc.used["A-CHAN"] = true
+		if chv, ok := f.val(x.X).(Val); ok {
+			rc := f.getCell(f.cur, "ghost:recvd", "(Array Int Bool)")
+			f.setCell(f.cur, "ghost:recvd", "(Array Int Bool)", sx("store", rc, chv.t, "true"))
+		}
 		if x.CommaOk {
 			f.vals[x] = Tuple{vc.freshVal("recv", x.X.Type().Underlying().(*types.Chan).Elem()), vc.freshVal("recvok", types.Typ[types.Bool])}
 		} else {
@@ -1500,9 +1509,12 @@ func (f *Frame) execSelect(x *ssa.Select) {
 	nsent := f.getCell(f.cur, "ghost:nsent", SInt)
 	sentTerm := nsent
 	var anyClosedRecv []string
+	recvd := f.getCell(f.cur, "ghost:recvd", "(Array Int Bool)")
+	recvdTerm := recvd
 	for i, s := range x.States {
 		ch := f.sval(s.Chan)
 		if s.Dir == types.RecvOnly {
+			recvdTerm = ite(eq(idx, fmt.Sprint(i)), sx("store", recvd, ch.t, "true"), recvdTerm)
 			et := s.Chan.Type().Underlying().(*types.Chan).Elem()
 			tup = append(tup, vc.freshVal("recv", et))
 			// a receive from a closed channel is always ready
@@ -1517,6 +1529,7 @@ func (f *Frame) execSelect(x *ssa.Select) {
 		vc.assume(implies(or(anyClosedRecv...), sx("distinct", idx, "(- 1)")))
 	}
 	f.setCell(f.cur, "ghost:nsent", SInt, sentTerm)
+	f.setCell(f.cur, "ghost:recvd", "(Array Int Bool)", recvdTerm)
 	f.vals[x] = tup
 }
 
